@@ -91,7 +91,7 @@ def run(tier):
     p = vlib.Pipeline(PROP, "match_resp", "match/MirrorTrace")
 
     # ---- part "match": every case, several concretisations
-    reps = 4 if quick else 60
+    reps = 4 if quick else 150
     scen = [dict(c, part="match", rep=k) for k in range(reps) for c in cases]
     expected_silent = sum(1 for s in scen if s["kind"] == "unreach" and s["m"]["quote"] == "own")
     chunk = 12000
@@ -102,7 +102,7 @@ def run(tier):
     mirrors = [c for c in cases if c["kind"] == "mirror" and (c["r"]["sport"], c["r"]["dport"], c["r"]["id"], c["r"]["seq"]) in ((1, 2, 0, 0), (0, 0, 1, 2))]
     stacks = [dict(obj=stack_label(c["r"], nv), r=c["r"], m=c["m"], netvar=nv) for c in mirrors for nv in ("plain", "opts")]
     objs = [dict(obj=l) for l in labels] + stacks
-    sreps = 1 if quick else 4
+    sreps = 1 if quick else 6
     safe = []
     for k in range(sreps):
         for o in objs:
@@ -144,7 +144,7 @@ def run(tier):
     }
     vlib.write_evidence(PROP, tier, "exploration", cov, time.time() - t0, len(v.violations), [
         "the case STRUCTURE (stack x matched field x perturbation value) is enumerated completely by TLC; field VALUES are sampled",
-        "requests without IPv4 options / IPv6 extension headers in part match; replies have the request's header structure",
+        "replies have the header structure of the request (one concretisation in four with an IPv4 record-route option / IPv6 hop-by-hop + destination-options headers on both sides)",
         "documented wildcards excluded from generation: broadcast / multicast Ethernet destination, IPv4 255.255.255.255 "
         "(and any IPv4 multicast / .0 / .255 address), IPv6 multicast",
         "ICMP errors that quote the request itself, and packets of another shape whose outer addresses agree with the mirror, "
